@@ -8,10 +8,12 @@
 package main
 
 import (
+	"bytes"
 	"fmt"
 	"go/ast"
 	"go/build"
 	"go/parser"
+	"go/printer"
 	"go/token"
 	"os"
 	"path/filepath"
@@ -142,6 +144,23 @@ func parseLangMap(cl *ast.CompositeLit, consts map[string]int, sev map[int]strin
 	return m, true
 }
 
+// squash: the source text of a node with all white space removed (bodies are compared with the one shape understood)
+func squash(n ast.Node) string {
+	var b bytes.Buffer
+	if err := printer.Fprint(&b, token.NewFileSet(), n); err != nil {
+		return "?"
+	}
+	return strings.Join(strings.Fields(b.String()), " ")
+}
+
+func firstIf(b *ast.BlockStmt) (*ast.IfStmt, bool) {
+	if b == nil || len(b.List) == 0 {
+		return nil, false
+	}
+	s, ok := b.List[0].(*ast.IfStmt)
+	return s, ok && s.Init != nil
+}
+
 func main() {
 	repo := "/repo"
 	out := "/verif/lean/CvssVerif/Generated/Names.lean"
@@ -186,6 +205,7 @@ func main() {
 	}
 	funcs := []fn{}
 	problems := []string{}
+	sawLookup := false
 	for _, p := range pkgs {
 		for _, f := range p.Files {
 			for _, d := range f.Decls {
@@ -250,6 +270,22 @@ func main() {
 						}
 					}
 				case *ast.FuncDecl:
+					if gd.Recv != nil && gd.Name.Name == "getNameInLang" {
+						// the one lookup every function goes through: exact tag, else English, else ""
+						sawLookup = true
+						rn, ln := "", ""
+						if len(gd.Recv.List) == 1 && len(gd.Recv.List[0].Names) == 1 {
+							rn = gd.Recv.List[0].Names[0].Name
+						}
+						if len(gd.Type.Params.List) == 1 && len(gd.Type.Params.List[0].Names) == 1 {
+							ln = gd.Type.Params.List[0].Names[0].Name
+						}
+						want := fmt.Sprintf("{ if s, ok := %s[%s]; ok { return s } if s, ok := %s[language.English]; ok { return s } return \"\" }", rn, ln, rn)
+						if got := squash(gd.Body); got != want || rn == "" || ln == "" || rn == "s" || rn == "ok" || ln == "s" || ln == "ok" || squash(gd.Recv.List[0].Type) != "langNameMap" {
+							problems = append(problems, "getNameInLang: body is not the exact-tag / English / empty lookup ("+got+")")
+						}
+						continue
+					}
 					if gd.Recv != nil || !gd.Name.IsExported() {
 						continue
 					}
@@ -265,10 +301,36 @@ func main() {
 					for _, fl := range gd.Type.Params.List {
 						nparams += len(fl.Names)
 					}
+					pn := []string{}
+					for _, fl := range gd.Type.Params.List {
+						for _, n := range fl.Names {
+							pn = append(pn, n.Name)
+						}
+					}
+					got := squash(gd.Body)
 					switch {
 					case nparams == 1 && len(tabs) == 1:
+						// the body is exactly: return <table>.getNameInLang(<lang>)
+						if want := fmt.Sprintf("{ return %s.getNameInLang(%s) }", tabs[0], pn[0]); got != want {
+							problems = append(problems, fmt.Sprintf("function %s: body is not the title lookup (%s)", gd.Name.Name, got))
+							continue
+						}
 						funcs = append(funcs, fn{gd.Name.Name, "title", tabs[0], ""})
 					case nparams == 2 && len(tabs) == 2:
+						// the body is exactly: if m, ok := <table>[<value>]; ok { return m.getNameInLang(<lang>) }; return <fallback>.getNameInLang(<lang>)
+						ok := false
+						if ifs, isIf := firstIf(gd.Body); isIf {
+							if as, isAs := ifs.Init.(*ast.AssignStmt); isAs && len(as.Lhs) == 2 {
+								m, k := squash(as.Lhs[0]), squash(as.Lhs[1])
+								want := fmt.Sprintf("{ if %s, %s := %s[%s]; %s { return %s.getNameInLang(%s) } return %s.getNameInLang(%s) }",
+									m, k, tabs[0], pn[0], k, m, pn[1], tabs[1], pn[1])
+								ok = got == want && m != "_" && k != "_" && m != k && m != pn[1] && k != pn[1]
+							}
+						}
+						if !ok {
+							problems = append(problems, fmt.Sprintf("function %s: body is not the value lookup with fall-back (%s)", gd.Name.Name, got))
+							continue
+						}
 						funcs = append(funcs, fn{gd.Name.Name, "value", tabs[0], tabs[1]})
 					default:
 						problems = append(problems, fmt.Sprintf("function %s: unexpected shape (%d params, tables %v)", gd.Name.Name, nparams, tabs))
@@ -276,6 +338,9 @@ func main() {
 				}
 			}
 		}
+	}
+	if !sawLookup {
+		problems = append(problems, "no getNameInLang method found")
 	}
 	sort.Slice(funcs, func(i, j int) bool { return funcs[i].name < funcs[j].name })
 	var sb strings.Builder
